@@ -5,9 +5,9 @@ import Swat4.Lemmas.QueueSys
 * `PopOwner`: every record of the ghost pop log belongs to a client that exists, has started and is a `PopMany` call —
   an invariant of the ghost system (`GInvOwner.run`), proved with the induction principle of `Lemmas/QueueSys.lean`;
 * `batchRecs j pops`: the pop records that make up consumer `j`'s batch (`retOf j pops` is their payload projection);
-* counting lemmas: in a log without duplicate ids, the records with a given id that satisfy `p` are exactly one / none.
-
-Nothing in `Model/` or `Lemmas/QueueSys.lean` is modified.
+* counting lemmas: in a log without duplicate ids, the records with a given id that satisfy `p` are exactly one / none;
+* `GInv.batch_sorted` / `GInv.batch_perm`: the batch a finished `PopMany` returns is the payload list of its batch records
+  stably sorted by score — in ready-time order, and a rearrangement of `retOf`.
 -/
 namespace Swat4
 open Std
@@ -50,7 +50,7 @@ theorem PopOwner.gstep {g g' : GSys} (h : PopOwner g) (hs : GStep g g') : PopOwn
   | other i c c' st' hc hnp hI hQ hcons hop hpc1 hpc2 hst harr hpop => exact h.set hc hop hst
   | enq i c c' p after before hc hcop hcpc hop hpc hst harr hpop => exact h.set hc hop hst
   | range i c c' n got e hc hcop hcpc hop hpc hst harr hpop => exact h.set hc hop hst
-  | exec i c c' n got e ids hc hcop hcpc hop hpc hst harr hpop =>
+  | exec i c c' n got e ids scs hc hcop hcpc hop hpc hst harr hpop =>
     intro d hd
     have hd' : d ∈ g.pops ++ g.sys.popRecs i ids := hd
     rcases List.mem_append.1 hd' with hd' | hd'
@@ -115,6 +115,54 @@ theorem mem_retOf {pops : List GPop} {d : GPop} (hd : d ∈ pops) (hr : d.return
     d.probe ∈ retOf d.client pops := by
   obtain ⟨k, _, hk⟩ := retOf_position hd hr
   exact List.mem_of_getElem? hk
+
+/-! ## the returned batch: the batch records stably sorted by score -/
+
+/-- the score a pop record was taken with (`0` never occurs under `GInv`: every record has a score, `GInv.popSrc`) -/
+def GPop.score (d : GPop) : Int := d.ready.getD 0
+
+theorem retS_eq_batchRecs (j : Nat) (pops : List GPop) : retS j pops = (batchRecs j pops).map fun d => (d.probe, d.score) := rfl
+
+/-- what a finished `PopMany` returns, in terms of the log: the payloads of the consumer's batch records, stably sorted by score -/
+theorem finishBatch_retS (j : Nat) (pops : List GPop) :
+    finishBatch (retS j pops) = (sortByScore GPop.score (batchRecs j pops)).map (·.probe) := by
+  unfold finishBatch
+  rw [retS_eq_batchRecs, ← sortByScore_map (fun d : GPop => (d.probe, d.score)) (·.2), List.map_map]
+  rfl
+
+/-- a started `PopMany` call that is done returned the stably sorted batch records of the log -/
+theorem GInv.done_batch {g : GSys} (hG : GInv g) {i : Nat} {c : QClient} {n : Int} {ps : List Probe} {k : Nat}
+    (hc : g.sys.clients[i]? = some c) (hs : c.started = true) (hop : c.op = .popMany n) (hpc : c.pc = .done (.probes ps k)) :
+    ps = (sortByScore GPop.score (batchRecs i g.pops)).map (·.probe) ∧ k = expOf i g.pops := by
+  have h := (hG.clients i c hc).pc hs
+  rw [hop, hpc] at h
+  exact ⟨h.1.trans (finishBatch_retS i g.pops), h.2.1⟩
+
+/-- **every batch a finished `PopMany` returned is in ready-time order**: it is the payload list of a rearrangement `recs`
+of the consumer's batch records (the entries it took out of the store and did not drop as expired) whose scores — by
+`GInv.popSrc` the ready times the entries were enqueued with — are non-decreasing -/
+theorem GInv.batch_sorted {g : GSys} (hG : GInv g) {i : Nat} {c : QClient} {n : Int} {ps : List Probe} {k : Nat}
+    (hc : g.sys.clients[i]? = some c) (hs : c.started = true) (hop : c.op = .popMany n) (hpc : c.pc = .done (.probes ps k)) :
+    ∃ recs : List GPop, recs.Perm (batchRecs i g.pops) ∧ ps = recs.map (·.probe) ∧
+      recs.Pairwise fun a b => ∃ ra rb, a.ready = some ra ∧ b.ready = some rb ∧ ra ≤ rb := by
+  refine ⟨sortByScore GPop.score (batchRecs i g.pops), sortByScore_perm _ _, (hG.done_batch hc hs hop hpc).1, ?_⟩
+  refine List.Pairwise.imp_of_mem ?_ (sortByScore_sorted GPop.score (batchRecs i g.pops))
+  intro a b ha hb hab
+  have hap : a ∈ g.pops := (List.mem_filter.1 ((sortByScore_perm _ _).mem_iff.1 ha)).1
+  have hbp : b ∈ g.pops := (List.mem_filter.1 ((sortByScore_perm _ _).mem_iff.1 hb)).1
+  obtain ⟨ea, _, _, _, _, hra⟩ := hG.popSrc a hap
+  obtain ⟨eb, _, _, _, _, hrb⟩ := hG.popSrc b hbp
+  refine ⟨_, _, hra, hrb, ?_⟩
+  have : a.score ≤ b.score := hab
+  simpa [GPop.score, hra, hrb] using this
+
+/-- … and a rearrangement of the batch the log attributes to the consumer (`retOf`, fetch order): same payloads, same
+multiplicities -/
+theorem GInv.batch_perm {g : GSys} (hG : GInv g) {i : Nat} {c : QClient} {n : Int} {ps : List Probe} {k : Nat}
+    (hc : g.sys.clients[i]? = some c) (hs : c.started = true) (hop : c.op = .popMany n) (hpc : c.pc = .done (.probes ps k)) :
+    ps.Perm (retOf i g.pops) := by
+  rw [(hG.done_batch hc hs hop hpc).1, retOf_eq_batchRecs]
+  exact (sortByScore_perm _ _).map _
 
 /-! ## counting records by id -/
 
